@@ -94,7 +94,8 @@ pub fn oracles_for(prop: &str, c: &Case, impl_result: &str) -> Vec<Verdict> {
         ("C12", Case::Wfault { shx, dest, fault, persistent, ops }) => v.push(extra::oracle_c12(*shx, dest, *fault, *persistent, ops)),
         ("C12", Case::Whist { shx, ops, .. }) => v.push(extra::oracle_c12_chunks(*shx, ops)),
         ("C13", Case::Write { shx: _, ctors }) => v.push(extra::oracle_c13(ctors)),
-        ("C15", Case::Rhist { target, shp, shx, ops }) => v.push(extra::oracle_c15(target, shp, shx.as_deref(), ops)),
+        ("C15", Case::Rhist { target, shp, shx, ops }) | ("C14", Case::Rhist { target, shp, shx, ops }) => v.push(extra::oracle_c15(target, shp, shx.as_deref(), ops)),
+        ("C03", Case::Read { .. }) | ("C03", Case::ReadFlat { .. }) | ("C14", Case::ReadFlat { .. }) => v.push(oracle_c07(impl_result)),
         ("C16", Case::Construct(c)) => v.push(oracle_c16(c)),
         ("C16", Case::Ring(d, r, ps)) => v.push(oracle_c16(&Ctor::PolygonRings(*d, vec![(*r, ps.clone())]))),
         ("C18", Case::Size(c)) => v.push(oracle_c18(c)),
